@@ -78,7 +78,7 @@ Proof.
   - cbn [fst snd st_epoch st_clusters st_proxies bump with_epoch with_clusters].
     split; [lia|]. split; [intros n Hn; apply alookup_ainsert_other; exact Hn|].
     left. split; [apply alookup_ainsert_same|]. split; [reflexivity|]. intros r. discriminate.
-  - match goal with |- context [generate_new_free_proxy ?s3 f ch] => set (s3 := s3) end.
+  - match goal with |- context [generate_new_free_proxy ?x f ch] => set (s3 := x) end.
     destruct (generate_new_free_proxy s3 f ch) as [r|e|] eqn:Eg.
     + destruct (gen_new_free_done s3 f ch r Eg) as (rr & Hr & Hfree).
       change (st_proxies s3) with (st_proxies s) in Hr.
@@ -105,10 +105,129 @@ Proof.
       rewrite (alookup_ainsert_other f r) by exact Hne. rewrite Hr.
       rewrite alookup_ainsert_other by (intros E; apply Hne; symmetry; exact E).
       apply alookup_ainsert_same.
-    + cbn [fst snd]. subst s3. cbn [st_epoch st_clusters st_proxies with_failed with_clusters with_epoch].
+    + cbn [fst snd]. subst s3. cbn [st_epoch st_clusters st_proxies with_failed with_clusters with_epoch bump].
       split; [lia|]. split; [intros n Hn; apply alookup_ainsert_other; exact Hn|].
       left. split; [apply alookup_ainsert_same|]. split; [reflexivity|]. intros r. discriminate.
-    + cbn [fst snd]. subst s3. cbn [st_epoch st_clusters st_proxies with_failed with_clusters with_epoch].
+    + cbn [fst snd]. subst s3. cbn [st_epoch st_clusters st_proxies with_failed with_clusters with_epoch bump].
       split; [lia|]. split; [intros n Hn; apply alookup_ainsert_other; exact Hn|].
       left. split; [apply alookup_ainsert_same|]. split; [reflexivity|]. intros r. discriminate.
+Qed.
+
+(* f is not (consistently) a member of a stored cluster *)
+Definition no_cluster_case (s : store) (f : N) : Prop :=
+  forall fr name cl, alookup f (st_proxies s) = Some fr -> pr_cluster fr = Some name ->
+                     alookup name (st_clusters s) = Some cl -> False.
+
+(* the remaining cases: unknown address, free proxy, dangling cluster name: no cluster changes *)
+Lemma replace_cases : forall s f ch,
+  (no_cluster_case s f
+   /\ st_clusters (fst (replace_failed_proxy s f ch)) = st_clusters s
+   /\ st_proxies (fst (replace_failed_proxy s f ch)) = st_proxies s
+   /\ st_epoch s <= st_epoch (fst (replace_failed_proxy s f ch))
+   /\ (forall r, snd (replace_failed_proxy s f ch) <> Done (Some r)))
+  \/ (exists fr name cl, alookup f (st_proxies s) = Some fr /\ pr_cluster fr = Some name
+                         /\ alookup name (st_clusters s) = Some cl).
+Proof.
+  intros s f ch. unfold replace_failed_proxy, no_cluster_case.
+  destruct (alookup f (st_proxies s)) as [fr|] eqn:Ef.
+  2:{ left. cbn. split; [intros; discriminate|]. repeat split; try lia. intros r; discriminate. }
+  destruct (pr_cluster fr) as [name|] eqn:En.
+  2:{ left. cbn. split; [intros fr0 name cl H; inversion H; subst; congruence|].
+      repeat split; try lia. intros r; discriminate. }
+  change (st_clusters (bump s)) with (st_clusters s).
+  destruct (alookup name (st_clusters s)) as [cl|] eqn:Ec.
+  - right. exists fr, name, cl. auto.
+  - left. cbn. split; [intros fr0 name0 cl H H1 H2; inversion H; subst; congruence|].
+    repeat split; try lia. intros r; discriminate.
+Qed.
+
+Lemma epochs_le_same_migs a b E :
+  (forall p, map (fun c => ck_mig c p) a = map (fun c => ck_mig c p) b) -> epochs_le b E -> epochs_le a E.
+Proof.
+  intros Hm Hb j cj p m Hj Hin.
+  assert (H : nth_error (map (fun c => ck_mig c p) b) j = Some (ck_mig cj p)).
+  { rewrite <- Hm, nth_error_map, Hj. reflexivity. }
+  rewrite nth_error_map in H. destruct (nth_error b j) as [cb|] eqn:Eb; [|discriminate].
+  cbn in H. inversion H as [H1]. apply (Hb j cb p m Eb). rewrite H1. exact Hin.
+Qed.
+
+Lemma epochs_le_mono chunks E E' : epochs_le chunks E -> E <= E' -> epochs_le chunks E'.
+Proof. intros H Hle j cj p m Hj Hm. specialize (H j cj p m Hj Hm). lia. Qed.
+
+(* ---------- 6. the epoch of the re-issued migrations ---------- *)
+Lemma replace_reissue_epoch : forall s f ch fr name cl,
+  alookup f (st_proxies s) = Some fr -> pr_cluster fr = Some name -> alookup name (st_clusters s) = Some cl ->
+  exists cl', alookup name (st_clusters (fst (replace_failed_proxy s f ch))) = Some cl'
+    /\ same_roles_migs cl' (takeover_master cl f (st_epoch s + 1))
+    /\ st_epoch s + 1 <= st_epoch (fst (replace_failed_proxy s f ch)).
+Proof.
+  intros s f ch fr name cl Hf Hn Hc.
+  destruct (replace_cluster_case s f ch fr name cl Hf Hn Hc) as (He & _ & [(Hl & _)|(r & rr & _ & _ & _ & _ & Hl & _)]).
+  - eexists. split; [exact Hl|]. split; [apply same_roles_migs_refl|exact He].
+  - eexists. split; [exact Hl|]. split; [|exact He].
+    split; cbn [cl_chunks]; [apply replace_in_chunks_roles|intros p; apply replace_in_chunks_migs].
+Qed.
+
+Lemma replace_preserves_epochs_le : forall s f ch,
+  store_epochs_le s -> store_epochs_le (fst (replace_failed_proxy s f ch)).
+Proof.
+  intros s f ch Hs.
+  destruct (replace_cases s f ch) as [(_ & Hc & _ & He & _)|(fr & name & cl & Hf & Hn & Hcl)].
+  - intros n cl Hl. rewrite Hc in Hl. eapply epochs_le_mono; [apply (Hs n cl Hl)|exact He].
+  - destruct (replace_cluster_case s f ch fr name cl Hf Hn Hcl) as (He & Hoth & _).
+    destruct (replace_reissue_epoch s f ch fr name cl Hf Hn Hcl) as (cl' & Hl' & (_ & Hm) & _).
+    intros n cl0 Hl. destruct (N.eq_dec n name) as [->|Hne].
+    + rewrite Hl' in Hl. inversion Hl; subst cl0.
+      eapply epochs_le_same_migs; [exact Hm|].
+      eapply epochs_le_mono; [|exact He].
+      apply (takeover_epochs cl f (st_epoch s + 1) (st_epoch s)); [apply (Hs name cl Hcl)|lia].
+    + rewrite (Hoth n Hne) in Hl. eapply epochs_le_mono; [apply (Hs n cl0 Hl)|lia].
+Qed.
+
+(* ---------- 4. repeated calls ---------- *)
+(* after a successful replacement the failed proxy is free: the next call for the same address only marks it failed *)
+Lemma replace_again_after_replacement : forall s f ch s' r,
+  replace_failed_proxy s f ch = (s', Done (Some r)) ->
+  forall ch2, st_clusters (fst (replace_failed_proxy s' f ch2)) = st_clusters s'
+              /\ snd (replace_failed_proxy s' f ch2) = Done None.
+Proof.
+  intros s f ch s' r H ch2.
+  destruct (replace_cases s f ch) as [(_ & _ & _ & _ & Hno)|(fr & name & cl & Hf & Hn & Hcl)].
+  { exfalso. apply (Hno r). rewrite H. reflexivity. }
+  destruct (replace_cluster_case s f ch fr name cl Hf Hn Hcl) as (_ & _ & [(_ & _ & Hno)|(r' & rr & _ & _ & _ & _ & _ & Hfp)]).
+  { exfalso. apply (Hno r). rewrite H. reflexivity. }
+  rewrite H in Hfp. cbn [fst] in Hfp.
+  unfold replace_failed_proxy. rewrite Hfp. cbn. split; reflexivity.
+Qed.
+
+(* in general (whatever the first call did; in ordered mode or without a spare proxy the failed proxy stays in the
+   cluster): a second call for the same address changes neither roles nor migration entries of any cluster *)
+Lemma replace_twice : forall s f ch ch2 n cl',
+  alookup n (st_clusters (fst (replace_failed_proxy s f ch))) = Some cl' ->
+  exists cl'', alookup n (st_clusters (fst (replace_failed_proxy (fst (replace_failed_proxy s f ch)) f ch2))) = Some cl''
+               /\ same_roles_migs cl'' cl'.
+Proof.
+  intros s f ch ch2 n cl' Hl.
+  set (s' := fst (replace_failed_proxy s f ch)) in *.
+  destruct (replace_cases s f ch) as [(Hno & Hc & Hp & _)|(fr & name & cl & Hf & Hn & Hcl)].
+  - (* the first call changed no cluster and no proxy entry: the second call is in the same case *)
+    fold s' in Hc, Hp.
+    destruct (replace_cases s' f ch2) as [(_ & Hc2 & _)|(fr2 & name2 & cl2 & Hf2 & Hn2 & Hcl2)].
+    + rewrite Hc2. exists cl'. split; [exact Hl|apply same_roles_migs_refl].
+    + exfalso. rewrite Hp in Hf2. rewrite Hc in Hcl2. apply (Hno fr2 name2 cl2 Hf2 Hn2 Hcl2).
+  - destruct (replace_cluster_case s f ch fr name cl Hf Hn Hcl)
+      as (_ & Hoth & [(Hl1 & Hp1 & _)|(r & rr & _ & _ & _ & _ & _ & Hfp)]); fold s' in Hoth.
+    + (* the failed proxy is still in the cluster: takeover_master runs again and returns early *)
+      fold s' in Hl1, Hp1.
+      assert (Hf' : alookup f (st_proxies s') = Some fr) by (rewrite Hp1; exact Hf).
+      destruct (replace_cluster_case s' f ch2 fr name _ Hf' Hn Hl1) as (_ & Hoth2 & _).
+      destruct (replace_reissue_epoch s' f ch2 fr name _ Hf' Hn Hl1) as (cl'' & Hl'' & Hsame & _).
+      destruct (N.eq_dec n name) as [->|Hne].
+      * rewrite Hl1 in Hl. inversion Hl; subst cl'. exists cl''. split; [exact Hl''|].
+        eapply same_roles_migs_trans; [exact Hsame|]. apply same_roles_migs_chunks.
+        apply takeover_idempotent_chunks.
+      * exists cl'. split; [rewrite (Hoth2 n Hne); exact Hl|apply same_roles_migs_refl].
+    + (* replaced: the failed proxy is free now *)
+      fold s' in Hfp. exists cl'. split; [|apply same_roles_migs_refl].
+      unfold replace_failed_proxy. rewrite Hfp. cbn. exact Hl.
 Qed.
